@@ -86,6 +86,117 @@ def _mentions_real(t, cache):
   return r
 
 
+_NLMUL = z3.Function("nl_mul", z3.IntSort(), z3.IntSort(), z3.IntSort())
+
+
+def abstract_nonlinear(terms):
+  """replace every product of two non-constant integer terms by an uninterpreted function.
+  Weakens the theory (any model of * is a model of nl_mul), hence sound for validity."""
+  cache = {}
+
+  def rec(t):
+    k = t.get_id()
+    if k in cache:
+      return cache[k]
+    if z3.is_quantifier(t) or not z3.is_app(t):
+      cache[k] = t
+      return t
+    ch = [rec(c) for c in t.children()]
+    r = t
+    if z3.is_mul(t) and t.sort() == z3.IntSort():
+      sym = [c for c in ch if not z3.is_int_value(c)]
+      if len(sym) >= 2:
+        const = [c for c in ch if z3.is_int_value(c)]
+        acc = sym[0]
+        for c in sym[1:]:
+          acc = _NLMUL(acc, c) if acc.get_id() <= c.get_id() else _NLMUL(c, acc)
+        r = acc
+        for c in const:
+          r = c * r
+        cache[k] = r
+        return r
+    if ch and any(a.get_id() != b.get_id() for a, b in zip(ch, t.children())):
+      try:
+        r = t.decl()(*ch)
+      except Exception:
+        r = t
+    cache[k] = r
+    return r
+
+  return [rec(t) for t in terms]
+
+
+_SIMP_CACHE = {}
+
+
+def abstract_except(terms, keep_names, min_size=24):
+  """Replace every maximal subterm that mentions none of the symbols in keep_names (and is
+  not a plain constant/numeral) by a fresh constant of the same sort, consistently across all
+  `terms`. This generalises the formulas (the subterm becomes an arbitrary value), so a proof
+  of the abstracted goal is a proof of the original. Used for relational obligations in
+  which only a few symbols (capacities, allocated slots) differ between the two copies."""
+  # bring all formulas to z3's normal form first: path conditions were simplified when they were
+  # built, allocation sizes were not, and the abstraction below matches subterms structurally
+  def simp(t):
+    k = t.get_id()
+    if k not in _SIMP_CACHE:
+      _SIMP_CACHE[k] = (t, z3.simplify(t, som=False, flat=True, arith_lhs=False))  # keep t alive: ids are reused otherwise
+    return _SIMP_CACHE[k][1]
+
+  terms = [simp(t) if isinstance(t, z3.ExprRef) else t for t in terms]
+  cache_sym = {}
+  fresh = {}
+  sizes = {}
+
+  def size(t):
+    k = t.get_id()
+    if k not in sizes:
+      n = 1
+      if z3.is_app(t):
+        for c in t.children():
+          n += size(c)
+          if n > 10 * min_size:
+            break
+      sizes[k] = n
+    return sizes[k]
+
+  def mentions(t):
+    return bool(_symbols(t, cache_sym) & keep_names)
+
+  cache = {}
+
+  def rec(t):
+    k = t.get_id()
+    if k in cache:
+      return cache[k]
+    if z3.is_quantifier(t) or not z3.is_app(t):
+      cache[k] = t
+      return t
+    if not mentions(t) and size(t) < min_size:
+      cache[k] = t  # small independent subterm: keep it (arithmetic facts such as k < n stay usable)
+      return t
+    if not mentions(t):
+      if t.num_args() == 0:
+        r = t  # constant or numeral
+      else:
+        if k not in fresh:
+          fresh[k] = z3.Const(f"opaque!{len(fresh)}", t.sort())
+        r = fresh[k]
+      cache[k] = r
+      return r
+    ch = [rec(c) for c in t.children()]
+    r = t
+    if any(a.get_id() != b.get_id() for a, b in zip(ch, t.children())):
+      try:
+        r = t.decl()(*ch)
+      except Exception:
+        r = t
+    cache[k] = r
+    return r
+
+  return [rec(t) for t in terms]
+
+
 def integer_projection(assumptions):
   """drop every hypothesis conjunct that mentions a Real-sorted term (floating-point path
   conditions). Weakening hypotheses is sound for validity; used for index obligations, whose
